@@ -66,12 +66,7 @@ def okE : Expr → Bool
   | .is _ e => okE e && decide (4 ≤ e.lvl)
   | .cmp op l r =>
     okE l && decide (6 ≤ l.lvl) &&
-      (if op.isIn then
-        (match r with
-         | .tuple es => okEs es && !es.isEmpty
-         | .subq s => okS s && s.isStmt
-         | _ => false)
-       else okE r && decide (6 ≤ r.lvl))
+      (if op.isIn then okInRhs r else okE r && decide (6 ≤ r.lvl))
   | .exists_ s => okS s && s.isStmt
   | .val ty neg _ => !neg || ty == .int
   | .null => true
@@ -88,6 +83,11 @@ def okE : Expr → Bool
     rawOK name && (qual == "" || !distinct) && (!distinct || !args.isEmpty) && okItems args
   | .convert e t => okE e && decide (1 ≤ e.lvl) && okConvTy t
   | .field e name => okE e && decide (13 ≤ e.lvl) && name != ""
+  | _ => false
+/-- `col_tuple`: the right operand of IN -/
+def okInRhs : Expr → Bool
+  | .tuple es => okEs es && !es.isEmpty
+  | .subq s => okS s && s.isStmt
   | _ => false
 /-- a list of expressions (each of any level) -/
 def okEs : List Expr → Bool
@@ -153,12 +153,12 @@ def okS : Sel → Bool
       okTrigs trig && okOrders orderBy && okOE limOff && okOE limCnt && (limOff.isNone || limCnt.isSome)
   | .with_ ctes s => okCtes ctes && !ctes.isEmpty && okS s && s.isStmt
   | .cte _ _ => false
+def okCte : Sel → Bool
+  | .cte name s => name != "" && okS s && s.isStmt
+  | _ => false
 def okCtes : List Sel → Bool
   | [] => true
-  | c :: cs =>
-    (match c with
-     | .cte name s => name != "" && okS s && s.isStmt
-     | _ => false) && okCtes cs
+  | c :: cs => okCte c && okCtes cs
 end
 
 /-! ## nesting depth (what the parser's fuel must cover) and size -/
